@@ -6,6 +6,7 @@
   Import-free (linked into the driver).
 -/
 import Upnp.Model.C06Soap
+import Upnp.Spec.C08
 namespace Upnp.C06
 
 /-- an exception as observed: class name and the names of the library classes in its MRO -/
@@ -26,18 +27,15 @@ structure Obs where
   tree : Option Xml := none        -- the body as parsed by an XML parser (none = not well-formed)
 deriving Repr
 
-/-- "accepted by the declared type, range and allowed values" (Python typing: `bool ⊑ int`,
-    `datetime ⊑ date`; `.tz` types need an aware value; in non-strict mode the library
-    deliberately does not enforce ranges / lists). `none` = declaration outside the model. -/
+/-- "accepted by the declared type, range and allowed values": **C08's acceptance predicate**
+    `C08.accept` (declared Python class with `bool ⊑ int`, `datetime ⊑ date`; an aware value for the
+    `.tz` types; member of the allowed list by Python `==`; within minimum / maximum by Python `<=`
+    — characterised by `C08.accept_iff`) applied to what the declaration's texts denote under the
+    row's own `in` coercer (`C08.mkSchema`; in non-strict mode the factory declares no list / range).
+    `none` = a declaration the factory itself refuses. -/
 def accepts (O : Oracles) (strict : Bool) (d : VarDecl) (v : PyVal) : Option Bool :=
-  let tyOk := isInstance v d.row.ty && (!d.row.needTz || awareOf v)
-  if !tyOk then some false
-  else if !strict then some true
-  else
-    match allowedOk O d v, rangeOk O d v with
-    | some false, _ => some false              -- not a member: refused whatever the range says
-    | some true, r => r
-    | none, _ => none
+  (schemaOf O strict d).map fun sc =>
+    Upnp.C08.accept O d.row.ty d.row.requireTz { min := sc.min, max := sc.max, allowed := sc.allowed } v
 
 /-- every in-argument is supplied and accepted -/
 def allAccepted (O : Oracles) (strict : Bool) : List ArgDecl → Kwargs → Option Bool
@@ -51,14 +49,12 @@ def allAccepted (O : Oracles) (strict : Bool) : List ArgDecl → Kwargs → Opti
       | some false => some false
       | some true => allAccepted O strict r kw
 
-def isNanVal : PyVal → Bool
-  | .float _ .nan => true
-  | _ => false
-
-/-- the text decodes (declared `in` coercion) to the supplied value -/
+/-- the text decodes (declared `in` coercion, C08's `coercePython`) to the supplied value — the
+    value itself, or for a `bool` given under an integer type the integer Python considers equal
+    to it (`C08.expectBack`) -/
 def decodesTo (O : Oracles) (row : TypeRow) (text : Str) (v : PyVal) : Bool :=
   match coercePython O row text with
-  | .ok w => pyEq w v || (isNanVal w && isNanVal v)
+  | .ok w => w == Upnp.C08.expectBack row.ty v
   | .error _ => false
 
 /-- the children of the action element are exactly the in-arguments, in declared order, each
